@@ -3,7 +3,7 @@
 Proof: coq/Props/C18.v (declared IR signature = published C signature at ABI-class level for every
 signature and arity; ownership discipline of the emitted call plan; extern symbols are not mangled).
 Tie: generated extern signatures (arity 0..6, 12 parameter kinds by value and by Referenz, 13 result
-kinds) with a GENERATED C callee written against the runtime headers; a DDP caller in the declaring and
+kinds, plus generic extern functions with T Liste by value / T Listen Referenz / T Referenz) with a GENERATED C callee written against the runtime headers; a DDP caller in the declaring and
 in an importing module passes boundary values as variables, elements, fields and temporaries. Judged
 directly (Python oracle): the callee saw exactly the passed values, Referenz parameters mutate exactly
 the caller's storage, by-value arguments are private copies, stdout as expected, every block the
@@ -46,7 +46,34 @@ KINDS = {
     "ID": dict(ty="N(Z)", ddp="Kennung", ref="Kennung Referenz", ret="eine Kennung", decl="Die Kennung", c="ddpint", prim=True),
     "NT": dict(ty="N(T)", ddp="Titel", ref="Titel Referenz", ret="einen Titel", decl="Der Titel", c="ddpstring", prim=False),
 }
+# parameters of GENERIC extern functions that mention the type parameter T (instantiated per call with Zahl or Text)
+GENERIC_KINDS = {
+    "GL": dict(ty=None, ddp="T Liste", ref="T Listen Referenz", ret="eine T Liste", c="ddpgenericlist", prim=False),
+    "GE": dict(ty=None, ddp=None, ref="T Referenz", ret=None, c="void", prim=False),
+}
+KINDS.update(GENERIC_KINDS)
 CORE = ["Z", "K", "B", "W", "C", "T", "ZL", "TL", "P", "V"]
+
+
+def resolve_kind(k, T):
+    if k == "GL":
+        return "ZL" if T == "Z" else "TL"
+    if k == "GE":
+        return T
+    return k
+
+
+def resolve_fn(fn, T):
+    """the instantiation of a generic function for T in {Z, T}: concrete kinds, the mutation/return script of that T"""
+    if not fn.get("generic"):
+        return fn
+    r = dict(fn)
+    r["generic"] = False
+    r["params"] = [[resolve_kind(k, T), ref] for k, ref in fn["params"]]
+    r["newvals"] = [(nv[T] if isinstance(nv, dict) else nv) for nv in fn["newvals"]]
+    r["ret"] = resolve_kind(fn["ret"], T) if fn["ret"] is not None else None
+    r["retval"] = fn["retval"][T] if isinstance(fn["retval"], dict) else fn["retval"]
+    return r
 ALLK = CORE + ["ID", "NT"]
 
 TEXTS = ["", "a", "häß€😀", "Hallo Welt", "x" * 17, "Der schnelle braune Fuchs springt hinüber", "ß"]
@@ -270,7 +297,7 @@ PNAMES = ["pa", "pb", "pc", "pd", "pe", "pf"]
 
 def ddp_extern_decl(fn, cfile):
     ps = fn["params"]
-    s = "Die öffentliche Funktion %s" % fn["name"]
+    s = "Die öffentliche %sFunktion %s" % ("generische " if fn.get("generic") else "", fn["name"])
     if ps:
         names = PNAMES[:len(ps)]
         types = [KINDS[k]["ref"] if r else KINDS[k]["ddp"] for k, r in ps]
@@ -420,10 +447,17 @@ def c_suffix(k):
 def c_proto(fn):
     """prototype written from the published convention (independent of the Coq model)"""
     ps = []
-    if fn["ret"] is not None and not KINDS[fn["ret"]]["prim"]:
+    g = "_g" if fn.get("generic") else ""
+    if fn["ret"] == "GL":
+        ps.append("ddpgenericlist *ret_g")
+    elif fn["ret"] is not None and not KINDS[fn["ret"]]["prim"]:
         ps.append("%s *ret" % KINDS[fn["ret"]]["c"])
     for (k, r), n in zip(fn["params"], PNAMES):
-        if KINDS[k]["prim"] and not r:
+        if k == "GL":
+            ps.append(("ddpgenericlistref %s_g" if r else "ddpgenericlist *%s_g") % n)
+        elif k == "GE":
+            ps.append("ddpgenericref %s_g" % n)
+        elif KINDS[k]["prim"] and not r:
             ps.append("%s %s" % (KINDS[k]["c"], n))
         else:
             ps.append("%s *%s" % (KINDS[k]["c"], n))
@@ -431,8 +465,9 @@ def c_proto(fn):
     return "%s %s(%s)" % (rt, fn["name"], ", ".join(ps) if ps else "void")
 
 
-def c_function(fn):
-    L = [c_proto(fn) + " {", "\tmark(%d);" % ENTRY_MARK, '\tfprintf(stderr, "@E 0 %s 0\\n");' % fn["name"]]
+def c_body(fn):
+    """statements of a callee with concrete parameter kinds"""
+    L = ["\tmark(%d);" % ENTRY_MARK, '\tfprintf(stderr, "@E 0 %s 0\\n");' % fn["name"]]
     ps = list(zip(fn["params"], PNAMES))
     for i, ((k, r), n) in enumerate(ps):
         if not KINDS[k]["prim"]:
@@ -472,16 +507,41 @@ def c_function(fn):
     L.append("\tmark(%d);" % EXIT_MARK)
     if rk is not None and KINDS[rk]["prim"]:
         L.append("\treturn rv;")
-    L.append("}")
+    return L
+
+
+def c_function(fn):
+    if not fn.get("generic"):
+        return "\n".join([c_proto(fn) + " {"] + c_body(fn) + ["}"]) + "\n"
+    # a generic callee does not know T; the first parameter (a Zahl) tells it: 0 = Zahl, otherwise Text
+    L = [c_proto(fn) + " {"]
+    for T, cond in (("Z", "\tif (%s == 0) {" % PNAMES[fn.get("tag", 0)]), ("T", "\t} else {")):
+        rfn = resolve_fn(fn, T)
+        L.append(cond)
+        for ((k, r), (rk_, _)), n in zip(zip(fn["params"], rfn["params"]), PNAMES):
+            if k in GENERIC_KINDS:
+                L.append("\t\t%s *%s = (%s *)%s_g;" % (KINDS[rk_]["c"], n, KINDS[rk_]["c"], n))
+        if fn["ret"] == "GL":
+            L.append("\t\t%s *ret = (%s *)ret_g;" % (KINDS[rfn["ret"]]["c"], KINDS[rfn["ret"]]["c"]))
+        L += ["\t" + l for l in c_body(rfn)]
+    L += ["\t}", "}"]
     return "\n".join(L) + "\n"
 
 
 # ---- signature / call generation ----------------------------------------------------------------
 def sig_key(fn):
-    return "ret=%s params=%s" % (fn["ret"] or "-", ",".join(("r:" if r else "v:") + k for k, r in fn["params"]) or "-")
+    return "%sret=%s params=%s" % ("generic " if fn.get("generic") else "", fn["ret"] or "-", ",".join(("r:" if r else "v:") + k for k, r in fn["params"]) or "-")
 
 
-def model_line(fn, kinds):
+def model_line(fn, kinds, T=None):
+    if fn.get("generic"):
+        rfn = resolve_fn(fn, T)
+        ps = []
+        for (k, r), (rk_, _) in zip(fn["params"], rfn["params"]):
+            tag = ("gr:" if r else "gv:") if k in GENERIC_KINDS else ("r:" if r else "v:")
+            ps.append(tag + KINDS[rk_]["ty"])
+        ret = "-" if fn["ret"] is None else (("GL:" if fn["ret"] == "GL" else "") + KINDS[rfn["ret"]]["ty"])
+        return "GEN %s %s %s %s" % (fn["name"], ret, kinds or "-", " ".join(ps))
     return "%s %s %s %s" % (fn["name"], "-" if fn["ret"] is None else KINDS[fn["ret"]]["ty"], kinds or "-",
                             " ".join(("r:" if r else "v:") + KINDS[k]["ty"] for k, r in fn["params"]))
 
@@ -502,6 +562,8 @@ def gen_call(rng, fn):
         # the same variable by value and by Referenz in one call
         if rng.random() < 0.15:
             for j in range(i):
+                if fn.get("_tag", -1) in (i, j):
+                    continue
                 (kj, rj), aj = fn["params"][j], args[j]
                 if kj == k and rj != r and aj["mode"] == "var" and not any(a["mode"] == "same:%d" % j for a in args):
                     m, v = "same:%d" % j, aj["value"]
@@ -528,10 +590,46 @@ def gen_call(rng, fn):
 
 def gen_function(rng, name, params, ret, ncalls=2):
     fn = dict(name=name, params=[list(p) for p in params], ret=ret)
+    generic = any(k in GENERIC_KINDS for k, _ in params) or ret in GENERIC_KINDS
+    if generic:
+        fn["generic"] = True
+        fn["tag"] = max(i for i, (k, r) in enumerate(params) if k == "Z" and not r and i in (0, len(params) - 1))
+        fn["newvals"] = [({T: rnd_value(rng, resolve_kind(k, T)) for T in ("Z", "T")} if k in GENERIC_KINDS else rnd_value(rng, k)) if r else None for k, r in params]
+        fn["retval"] = ({T: rnd_value(rng, resolve_kind(ret, T), ret=True) for T in ("Z", "T")} if ret in GENERIC_KINDS else rnd_value(rng, ret, ret=True)) if ret is not None else None
+        fn["calls"] = []
+        for n in range(ncalls):
+            T = "ZT"[n % 2] if ncalls > 1 else rng.choice("ZT")
+            rfn = resolve_fn(fn, T)
+            rfn["_tag"] = fn["tag"]
+            c = gen_call(rng, rfn)
+            c["T"] = T
+            c["args"][fn["tag"]] = dict(mode="lit", value=["Z", 0 if T == "Z" else 1], extra=None)   # tells the callee what T is
+            fn["calls"].append(c)
+        return fn
     fn["newvals"] = [rnd_value(rng, k) if r else None for k, r in params]
     fn["retval"] = rnd_value(rng, ret, ret=True) if ret is not None else None
     fn["calls"] = [gen_call(rng, fn) for _ in range(ncalls)]
     return fn
+
+
+def gen_generic_signatures(rng, n):
+    """generic extern signatures: the first or the last parameter is a Zahl (tells the C callee what T is), the others
+    include at least one that mentions T: "T Liste" by value, "T Listen Referenz", "T Referenz"."""
+    GLv, GLr, GEr = ("GL", False), ("GL", True), ("GE", True)
+    forms = [[GLv], [GLr], [GEr], [GLv, GLr], [GLv, GEr], [GLr, GLv], [("T", False), GLv], [GLv, ("ZL", False)], [GLv, GLv],
+             [("TL", True), GLv, GEr], [GEr, GLv, ("P", False)]]
+    rets = ["T", None, "Z", "GL", "ZL", "W", "P", "V", "GL", "TL", "K"]   # GL: "eine T Liste" as result
+    out = []
+    for i, f in enumerate(forms):
+        for j in range(2):
+            out.append(([("Z", False)] + f if j == 0 else f + [("Z", False)], rets[(2 * i + j) % len(rets)]))
+    pool = [GLv, GLv, GLv, GLr, GEr] + [(k, ref) for k in CORE for ref in (False, True)]
+    while len(out) < n:
+        ps = [rng.choice(pool) for _ in range(rng.choice([1, 2, 3, 4, 5]))]
+        if not any(k in GENERIC_KINDS for k, _ in ps):
+            ps[rng.randrange(len(ps))] = rng.choice([GLv, GLv, GLr, GEr])
+        out.append(([("Z", False)] + ps if rng.random() < 0.5 else ps + [("Z", False)], rng.choice(CORE + [None, None, "GL", "GL"])))
+    return out[:max(n, 2 * len(forms))]
 
 
 def gen_signatures(rng, n):
@@ -558,8 +656,9 @@ def build_caller(group, in_function):
     """statements of the caller and the expected stdout, plus per call the data the ledger judgement needs"""
     stm, exp, calls = [], [], []
     cn = 0
-    for fn in group:
-        for call in fn["calls"]:
+    for gfn in group:
+        for call in gfn["calls"]:
+            fn = resolve_fn(gfn, call.get("T"))
             cn += 1
             pre = "c%d" % cn
             decl, argx, dumps = [], [], []      # declarations, argument expressions, (label, kind, name, value_after)
@@ -653,7 +752,7 @@ def build_caller(group, in_function):
             exp.append("<%s(%s)" % (fn["name"], "".join(render(a["value"], "c") + "," for (k, r), a in zip(fn["params"], call["args"]) if not r and not KINDS[k]["prim"])))
             exp.append(line)
             byval = [(i, nblocks(a["value"])) for i, ((k, r), a) in enumerate(zip(fn["params"], call["args"])) if not r and not KINDS[k]["prim"]]
-            calls.append(dict(fn=fn, call=call, kinds=kinds, byval=byval, retblocks=(nblocks(fn["retval"]) if rk is not None else 0), n=cn))
+            calls.append(dict(fn=gfn, T=call.get("T"), call=call, kinds=kinds, byval=byval, retblocks=(nblocks(fn["retval"]) if rk is not None else 0), n=cn))
     if in_function:
         text = "Die Funktion lauf gibt nichts zurück, macht:\n" + "".join("\t" + s + "\n" for s in stm) + 'Und kann so benutzt werden:\n\t"lauf_los"\n\nlauf_los.\n'
     else:
@@ -911,6 +1010,9 @@ def translate_abi_tables():
                 cur += ch
         structs[name] = [f for f in fields if f]
 
+    def names_of(fs):
+        return [f.split()[-1].lstrip("*") for f in fs]
+
     def field(f, elem=None):
         u = re.match(r"union \{ void \*(\w+); uint8_t (\w+)\[(\w+)\]; \}$", f)
         if u:
@@ -931,6 +1033,12 @@ def translate_abi_tables():
         if None in fs:
             return None, "ddptypes.h: field of %s not understood: %s" % (name, structs[name])
         out[name] = fs
+    if "ddpgenericlist" not in structs:
+        return None, "ddptypes.h: struct ddpgenericlist not found"
+    gl = [field(f) for f in structs["ddpgenericlist"]]
+    if None in gl or names_of(structs["ddpgenericlist"]) != ["arr", "len", "cap"]:
+        return None, "ddptypes.h: ddpgenericlist not understood: %s" % structs["ddpgenericlist"]
+    out["genericlist"] = [g if " " not in g or g.startswith("CPtr C") and g.count(" ") == 1 else g for g in gl]
     shapes = set()
     for lname, ename in (("ddpintlist", "ddpint"), ("ddpfloatlist", "ddpfloat"), ("ddpbytelist", "ddpbyte"), ("ddpboollist", "ddpbool"),
                          ("ddpcharlist", "ddpchar"), ("ddpstringlist", "ddpstring"), ("ddpanylist", "ddpany")):
@@ -994,7 +1102,12 @@ def translate_abi_tables():
             return "LPtr e"
         return None
     gout = {}
-    for key, text, anchor in (("ddpstring", irs, 'NewTypeDef("ddpstring"'), ("ddpany", ira, 'NewTypeDef("ddpany"'), ("list", irl, "list.typ = c.mod.NewTypeDef(name")):
+    try:
+        irg = open(os.path.join(vlib.REPO, "src/compiler/ir_generic_list_type.go")).read()
+    except OSError as e:
+        return None, "source file missing: %s" % e
+    for key, text, anchor in (("ddpstring", irs, 'NewTypeDef("ddpstring"'), ("ddpany", ira, 'NewTypeDef("ddpany"'), ("list", irl, "list.typ = c.mod.NewTypeDef(name"),
+                              ("genericlist", irg, 'NewTypeDef("ddpgenericlist"')):
         parts = go_struct(text, anchor)
         if not parts:
             return None, "compiler: construction of the %s struct type not found" % key
@@ -1039,6 +1152,8 @@ def translate_abi_tables():
     lines.append("Definition hdr_string_fields : list cty := [%s]." % "; ".join(out["ddpstring"]))
     lines.append("Definition hdr_any_fields : list cty := [%s]." % "; ".join(out["ddpany"]))
     lines.append("Definition hdr_list_fields (e : cty) : list cty := [%s]." % "; ".join(out["list"]))
+    lines.append("Definition hdr_genericlist_fields : list cty := [%s]." % "; ".join(out["genericlist"]))
+    lines.append("Definition go_genericlist_fields : list llty := [%s]." % "; ".join(gout["genericlist"]))
     lines.append("Definition go_prim (p : prim) : llty :=\n  match p with " + " | ".join("%s => %s" % (c, gop[n]) for c, n in PRIMS) + " end.")
     lines.append("Definition go_string_fields : list llty := [%s]." % "; ".join(gout["ddpstring"]))
     lines.append("Definition go_any_fields : list llty := [%s]." % "; ".join(gout["ddpany"]))
@@ -1110,8 +1225,14 @@ def header_probe(b, sc, model):
                 return None
             base = names[base]
         return base + "*" * stars
+    gq = subprocess.run([model], input="GEN x - vv gv:L(Z) gr:Z\n", capture_output=True, text=True, timeout=60).stdout
+    gm = re.search(r"\| C x void \((struct\{.*\})\*;([^;]*)\) \|", gq)
+    if not gm or gm.group(2) != "void*":
+        return "the extracted model gives no published signature for generic parameters: %r" % gq[:200]
+    ctext["GLIST"] = gm.group(1)
     for k, hdr, fnames in (("T", "ddpstring", ["str", "cap"]), ("ZL", "ddpintlist", ["arr", "len", "cap"]),
-                           ("TL", "ddpstringlist", ["arr", "len", "cap"]), ("V", "ddpany", ["vtable_ptr", "value"])):
+                           ("TL", "ddpstringlist", ["arr", "len", "cap"]), ("V", "ddpany", ["vtable_ptr", "value"]),
+                           ("GLIST", "ddpgenericlist", ["arr", "len", "cap"])):
         fs = fields(ctext[k])
         if len(fs) != len(fnames):
             return "model %s has %d fields, header %s has %d" % (k, len(fs), hdr, len(fnames))
@@ -1134,6 +1255,7 @@ def header_probe(b, sc, model):
         return "model representation of Kombination / typedef / alias changed: %s" % ctext
     L.append("_Static_assert(offsetof(Paar, x) == 0 && offsetof(Paar, t) == 8 && sizeof(Paar) == 24, \"Paar\");")
     L.append("SAME(ddpintref, ddpint *); SAME(ddpfloatref, ddpfloat *); SAME(ddpbyteref, ddpbyte *); SAME(ddpboolref, ddpbool *);")
+    L.append("SAME(ddpgenericref, void *); SAME(ddpgenericlistref, ddpgenericlist *);")
     L.append("SAME(ddpcharref, ddpchar *); SAME(ddpstringref, ddpstring *); SAME(ddpanyref, ddpany *); SAME(ddpintlistref, ddpintlist *); SAME(ddpstringlistref, ddpstringlist *);")
     src = os.path.join(sc, "probe.c")
     open(src, "w").write("\n".join(L) + "\n")
@@ -1148,7 +1270,7 @@ def c_proto_from_model(fn, cpart):
     m = re.match(r"C (\S+) (\S+) \((.*)\)$", cpart.strip())
     if not m:
         return None
-    sub = [("struct{struct{char*;int64_t;}*;int64_t;int64_t;}", "ddpstringlist"), ("struct{int64_t*;int64_t;int64_t;}", "ddpintlist"),
+    sub = [("struct{void*;int64_t;int64_t;}", "ddpgenericlist"), ("struct{struct{char*;int64_t;}*;int64_t;int64_t;}", "ddpstringlist"), ("struct{int64_t*;int64_t;int64_t;}", "ddpintlist"),
            ("struct{int64_t;struct{char*;int64_t;};}", "Paar"), ("struct{ddpvtable*;union{void*;uint8_t[16];};}", "ddpany"), ("struct{char*;int64_t;}", "ddpstring"),
            ("int64_t", "ddpint"), ("double", "ddpfloat"), ("uint8_t", "ddpbyte"), ("bool", "ddpbool"), ("int32_t", "ddpchar")]
 
@@ -1290,7 +1412,7 @@ def check_group(ck, b, model, sc, gi, group, in_function, opts, asan, stats, shr
         elif run["compile"]["stage"] == "ok" and run.get("ledger") is None:
             failed.append(("ledger", "ledger", "no ledger written", run))
     # model correspondence: IR signature and prototype
-    q = "\n".join(model_line(c["fn"], c["kinds"]) for c in g["calls"]) + "\n"
+    q = "\n".join(model_line(c["fn"], c["kinds"], c.get("T")) for c in g["calls"]) + "\n"
     mo = subprocess.run([model], input=q, capture_output=True, text=True, timeout=120).stdout.splitlines()
     for c, line in zip(g["calls"], mo):
         parts = line.split(" | ")
@@ -1376,7 +1498,7 @@ def check_single(b, model, gdir, fn, in_function, opts, asan, want_ir, asan_vari
             if spec:
                 return ("ledger", spec[0], run)
     if want_ir:
-        mo = subprocess.run([model], input=model_line(fn, g["calls"][0]["kinds"]) + "\n", capture_output=True, text=True, timeout=60).stdout.splitlines()
+        mo = subprocess.run([model], input=model_line(fn, g["calls"][0]["kinds"], g["calls"][0].get("T")) + "\n", capture_output=True, text=True, timeout=60).stdout.splitlines()
         mparts = mo[0].split(" | ")
         irm = {"decl": mparts[0].split(" ", 2)[2], "import": mparts[5].split(" ", 2)[2]}
         for variant in ("decl", "import"):
@@ -1432,7 +1554,7 @@ def main():
         "Lower/Abi.v transcribes compiler.go VisitFuncDecl 557-605 / declareImportedFuncDecl 2187-2228 / VisitFuncCall 2015-2117, helper.go toIrType/toIrParamType/mangledNameDecl and ddptypes.h; tied on every run by: header static assertions (gcc), the textual IR signature of every generated function in both modules, the executed calls",
         "ABI classes: LLVM i1 and C bool are identified (one byte holding 0/1; LLVM passes i1 without zeroext — the callee prints the raw byte it received), the vtable pointer is an untyped byte pointer; x86-64 SysV lowering of both sides by LLVM 14 and gcc is outside the model and only differentially tested",
         "kddp emits no zeroext/signext on i1/i8/i32 parameters and results; the callees here are compiled by gcc, which does not rely on the caller's extension of sub-register arguments (a clang-compiled callee would) — not exercised",
-        "generic extern functions (ddpgenericlist / i8* parameters) and Windows are outside the model and the generator",
+        "generic extern functions: modelled at parameter level (T Liste by value -> ddpgenericlist*, any Referenz mentioning T -> i8*, generic list result -> ddpgenericlist out-slot) and generated with T in {Zahl, Text}; the C callee learns T from a Zahl parameter; agreement with the header only up to untyped pointers (theorem C18_generic_sig_lowering_compat); Windows is outside the model and the generator",
         "caller-side ownership is observed through the --wrap=ddp_reallocate ledger and the block addresses the generated callee reports on stderr; sha256 of the module name is an opaque function in the mangling model (unmangled extern symbols are observed by the link step)",
     ]
     import time
@@ -1468,6 +1590,10 @@ def main():
     per_group = 6 if ck.quick else 10
     sigs = gen_signatures(ck.rng, nsig)
     fns = [gen_function(ck.rng, "f_%d" % (i + 1), ps, ret) for i, (ps, ret) in enumerate(sigs)]
+    # generic extern functions (declared once from the generic declaration, called with T = Zahl and T = Text)
+    gsigs = gen_generic_signatures(ck.rng, 24 if ck.quick else 400)
+    gfns = [gen_function(ck.rng, "g_%d" % (i + 1), ps, ret) for i, (ps, ret) in enumerate(gsigs)]
+    fns = fns + gfns
     groups = [fns[i:i + per_group] for i in range(0, len(fns), per_group)]
     jobs = []
     gi = 0
@@ -1513,14 +1639,16 @@ def main():
         signatures=len(stats["sigs"]), functions=len(fns), corpus_functions=stats.get("corpus_functions", 0), skipped_groups=stats.get("skipped_groups", 0), groups=len(groups), executed_programs=stats["runs"], ledger_events=stats["ledger_events"],
         model_cases=stats["model_cases"], ir_signatures_compared=stats["ir_compared"], arity=dict(sorted(stats["arity"].items())),
         param_kinds=dict(sorted(stats["param_kinds"].items())), ret_kinds=dict(sorted(stats["ret_kinds"].items())), exhaustive=False,
-        rule="evaluation = one executed extern call (2 calls per function, both modules, per opt level); distinct non-trivial = distinct (signature, argument modes and values, result use); every call passes at least the call itself through the C callee and the ledger; systematic part: arity 0 with every result kind, arity 1 and last-of-2 with every kind by value and by Referenz; random part arity 2..6; argument modes literal/temporary, variable, list element, Kombination field, same variable by value and by Referenz; result bound, consumed inline or dropped; callers at top level and inside a function"))
+        rule="evaluation = one executed extern call (2 calls per function, both modules, per opt level); distinct non-trivial = distinct (signature, argument modes and values, result use); every call passes at least the call itself through the C callee and the ledger; systematic part: arity 0 with every result kind, arity 1 and last-of-2 with every kind by value and by Referenz; random part arity 2..6; generic extern functions (T = Zahl and T = Text per function, type tag first or last, with and without out-pointer); argument modes literal/temporary, variable, list element, Kombination field, same variable by value and by Referenz; result bound, consumed inline or dropped; callers at top level and inside a function"))
     ck.sample(dict(signature="ret=NT params=v:T,r:B", call='Der Byte b ist (255 als Byte). Der Titel r ist (f "x" b).', expect="out-slot first, Text copy claimed from the literal and released by args[1+1] after the call (the +1 of the free loop), b mutated through the pointer"))
     ck.sample(dict(signature="ret=T params=-", module="importing", expect="declare void @f(%ddpstring*) also through declareImportedFuncDecl; result Text owned by the caller and released once"))
     ck.sample(dict(signature="ret=T params=v:Z,r:TL,v:P", call="f (-1) tl (ein Paar aus 0 und \"häß€😀\")", expect="callee prints -1, the list, the Paar; tl replaced through the reference; copy of the Paar released after the call"))
-    ck.finish(explanation="All five theorems of Props/C18.v are full (no _partial/_refuted): C18_sig_lowering_is_abi (both declaration sites, every signature/arity, "
+    ck.finish(explanation="Generic extern functions: C18_generic_sig_lowering_compat, C18_generic_declaration_generalises, C18_generic_extern_call_ownership (full). "
+              "Found by this check and fixed in /repo (76f45a7): a generic extern function with a generic list as result could not be called; such results are now part of the normal groups. "
+              "The theorems of Props/C18.v are full (no _partial/_refuted): C18_sig_lowering_is_abi (both declaration sites, every signature/arity, "
               "ABI-class equality with the published C signature), C18_published_convention, C18_extern_call_ownership (the emitted plan runs without ownership error for every "
               "signature and temporary/variable mix; by-value non-primitive arguments copied/claimed before and released exactly once after; result owned), C18_reference_untouched, "
-              "C18_extern_not_mangled. No defect of the pinned tree was found for this property.")
+              "C18_extern_not_mangled.")
 
 
 if __name__ == "__main__":
